@@ -2,7 +2,21 @@
 import json, sys
 props = {json.loads(l)["id"]: json.loads(l) for l in open("/verif/properties.jsonl")}
 p = props[sys.argv[1]]
-print(f"""You are a careful adversarial engineer. You have your own scratch git worktree of a Go repository at /tmp/seed/{p['id']}
+rnd = sys.argv[2] if len(sys.argv) > 2 else "1"
+base = "/tmp/seed" if rnd == "1" else "/tmp/seed%s" % rnd
+prior = ""
+if rnd != "1":
+    import os
+    ms = []
+    for r in range(1, int(rnd)):
+        f = "/verif/seeded/%s-%d/meta.json" % (p["id"], r)
+        if os.path.exists(f):
+            m = json.load(open(f))
+            ms.append("- files %s: %s" % (m.get("touched_files"), (m.get("agent_meta", {}).get("summary") or "")[:220]))
+    if ms:
+        prior = ("\nAn earlier engineer already produced the following change(s) for this property. Yours must be DIFFERENT in kind: "
+                 "another function or mechanism, another failure mode (do not just move the same idea elsewhere):\n" + "\n".join(ms) + "\n")
+print(f"""You are a careful adversarial engineer. You have your own scratch git worktree of a Go repository at {base}/{p['id']}
 (module go.miragespace.co/specter: a reverse-tunnel overlay network whose nodes form a Chord DHT with KV stores; Go toolchain installed;
 the sandbox is OFFLINE: always `export GOFLAGS=-mod=mod GOPROXY=off` and leave GOTOOLCHAIN/GOSUMDB unset). Work ONLY inside that
 directory. Do not read or use anything under /verif, and do not touch /repo.
@@ -14,9 +28,10 @@ Here is a semantic property the code is supposed to satisfy:
   Quantifier: {', '.join(p['quantifier']['over'])} — {p['quantifier']['text']}
   Code anchors: files {p['anchors']['files']}; mechanisms {[m.get('name','') for m in p['anchors']['mechanism']]}
 
+{prior}
 Your task: write ONE small change to the NON-TEST source code that BREAKS this property, such that
   (a) the repository still compiles (`go build ./...` for the touched packages; note package tun/client does not build in this snapshot
-      because an embedded UI directory is missing — avoid depending on it or ignore that pre-existing failure),
+      unless a build overlay supplies the missing embedded UI file: `mkdir -p .ov && echo '<html></html>' > .ov/index.html && echo '{{"Replace": {{"'$PWD'/tun/client/ui/build/index.html": "'$PWD'/.ov/index.html"}}}}' > .ov/overlay.json`, then pass `-overlay $PWD/.ov/overlay.json` to go build / go test),
   (b) the EXISTING tests of the touched packages still pass, unedited (`go test -vet=off -count=1 ./<pkg>/...`), and
   (c) the breakage needs something SPECIFIC to manifest — a particular interleaving, a crash or fault at a particular point, a multi-step
       sequence of operations, an unusual/boundary input, or two cooperating sites that each look fine alone — NOT something ordinary use
@@ -24,7 +39,7 @@ Your task: write ONE small change to the NON-TEST source code that BREAKS this p
       dropped step on an error path, a stale-state reuse) over vandalism.
 Also write a DEMONSTRATION: a Go test file (new file, e.g. zz_seed_demo_test.go in the relevant package; internal tests may access
 unexported identifiers) or a small program that FAILS with your change applied and PASSES on the original code. Verify both directions yourself
-(save your change with `git diff > /tmp/seed/<id>.mine.diff`, revert with `git checkout -- <files>`, re-apply with `git apply`; do NOT use `git stash`: the stash is shared between worktrees).
+(save your change with `git diff > {base}/<id>.mine.diff`, revert with `git checkout -- <files>`, re-apply with `git apply`; do NOT use `git stash`: the stash is shared between worktrees).
 
 Deliver, inside your worktree, a directory .seed/ containing:
   patch.diff   — `git diff` of your change to non-test files only (must apply with `git apply` to a clean checkout of the same commit)
